@@ -1,4 +1,5 @@
 import PharmpyModel.C18.Search
+import PharmpyModel.Core.Expr
 /-
   C18 — specification-side notions (no code is mirrored here).
 -/
@@ -41,5 +42,41 @@ def choose : Nat → Nat → Nat
 def subsetsL {α : Type} (l : List α) (a b : Nat) : List (List α) :=
   (List.range (b + 1 - a)).flatMap (fun i => combs (a + i) l)
 
+
+/-! ### stepwise search: the path rule -/
+
+/-- every step of the path is a key of the table that `_is_allowed` accepts given the keys
+    applied before it (`prev` = keys already on the path) -/
+def allowedFrom (funcs : List Key) (prev : List Key) : List Key → Bool
+  | [] => true
+  | f :: rest => funcs.contains f && isAllowed funcs f prev && allowedFrom funcs (prev ++ [f]) rest
+
+def allowedPath (funcs : List Key) (p : List Key) : Bool := allowedFrom funcs [] p
+
+/-- the candidates created in the `k`-th sweep of the `while True` loop -/
+def layer (funcs : List Key) : Nat → List (List Key)
+  | 0 => [[]]
+  | k + 1 => nextLayer funcs (layer funcs k)
+
+/-- `t` takes one element from each list of `gs`, in order -/
+def pickOne {β : Type} : List β → List (List β) → Prop
+  | [], [] => True
+  | a :: t, g :: gs => a ∈ g ∧ pickOne t gs
+  | _, _ => False
+
+/-! ### helpers to state witnesses -/
+
+/-- the search space a statement list parses to (empty space if the code raises) -/
+def mfOf (ss : List Stmt) : MF :=
+  match MF.ofStmts ss with
+  | .ok m => m
+  | .error _ => ⟨none, none, [], [], none⟩
+
+/-- the two atom lists denote the same set -/
+def sameAtoms (a b : List Atom) : Bool := a.all (b.contains ·) && b.all (a.contains ·)
+
+/-- atoms of the PK subset used by modelsearch (no metabolite peripherals) -/
+def MF.pkAtoms (a : MF) : List Atom :=
+  a.atoms.filter (fun x => match x with | .peri _ m => m != "MET" | _ => true)
 
 end Pharmpy.C18
